@@ -339,18 +339,21 @@ def hasScheme (s : Str) : Bool :=
     pre.length < s.length && pre.length > 0 && c.isAlpha &&
       pre.all (fun x => x.isAlphanum || x = '+' || x = '-' || x = '.')
 
-/-- `merge_config(args, config)`; `ns` is `vars(args)`, `cfg` is `USERCFG` -/
-def mergeConfig (T : Tables) (lookup : Str → Option OhRec) (ns : Map) (cfg : Ini) : PyM Chain := do
-  let args := extractns ns
-  let userCfg ← match args.lookup "server".toList with
-    | some (.str s) => readConfig T cfg s
-    | _ => pure []
-  let merged : Chain := [args, userCfg, T.defaults]
-  let noUrl ← if (args.lookup "ofxhome".toList).isSome || (userCfg.lookup "ofxhome".toList).isSome then pure true
-              else do
-                let u ← merged.getItem "url".toList
-                pure (!truthy u)
-  let merged ← if noUrl then mergeFromOfxhome lookup merged else pure merged
+/-- `read_config(config, _args["server"])` if the command line names a server, else `{}` -/
+def userCfgOf (T : Tables) (cfg : Ini) (args : Map) : PyM Map :=
+  match args.lookup "server".toList with
+  | some (.str s) => readConfig T cfg s
+  | _ => pure []
+
+/-- `"ofxhome" in _args or "ofxhome" in user_cfg or (not merged["url"])` -/
+def wantsOfxhome (args userCfg : Map) (merged : Chain) : PyM Bool :=
+  if (args.lookup "ofxhome".toList).isSome || (userCfg.lookup "ofxhome".toList).isSome then pure true
+  else do
+    let u ← merged.getItem "url".toList
+    pure (!truthy u)
+
+/-- the "Missing URL" tail of `merge_config` -/
+def finishMerge (T : Tables) (args : Map) (merged : Chain) : PyM Chain :=
   let haveUrl := truthy ((merged.get? "url".toList).getD .null)
   let dry := truthy ((merged.get? "dryrun".toList).getD (.bool false))
   let isList := pyEq ((merged.get? "request".toList).getD .null) (.str "list".toList)
@@ -367,6 +370,15 @@ def mergeConfig (T : Tables) (lookup : Str → Option OhRec) (ns : Map) (cfg : I
         pure ((merged.set "url".toList (.str server)).set "server".toList .null)
       else .error .value
     | some _ => .error .attr
+
+/-- `merge_config(args, config)`; `ns` is `vars(args)`, `cfg` is `USERCFG` -/
+def mergeConfig (T : Tables) (lookup : Str → Option OhRec) (ns : Map) (cfg : Ini) : PyM Chain := do
+  let args := extractns ns
+  let userCfg ← userCfgOf T cfg args
+  let merged : Chain := [args, userCfg, T.defaults]
+  let go ← wantsOfxhome args userCfg merged
+  let merged ← if go then mergeFromOfxhome lookup merged else pure merged
+  finishMerge T args merged
 
 /-- the value in effect for `k` -/
 def effective (c : Chain) (k : Name) : Option CfgVal := c.get? k
